@@ -187,3 +187,47 @@ def ctx_text(F, n):
 
 RULES = [r23_1, r23_2, r23_3]
 FLOORS = {"R23.1": 12, "R23.2": 10, "R23.3": 4}
+
+
+def r23_4(ctx):
+    """compact_list: cursor discipline of the unlink loops - after a successful unlink the predecessor stays, the cursor moves to the
+    successor that was installed; otherwise the predecessor becomes the current record"""
+    from sa.q import noepoch
+    for F in ctx.need("cds::algo::flat_combining::kernel::compact_list"):
+        cfg = cfg_of(F)
+        n = 0
+        for h, body in cfg.loops().items():
+            t = F.blocks[h].term
+            c = F.strip(t["cond"]) if t and t.get("cond") else None
+            if c is None or c.get("k") != "ref":
+                continue
+            cur_var = c["d"]
+            ps = PathSim(F, bound=2048, start=h, region=set(body)).run()
+            for p in ps:
+                end = path_end(p)
+                if end != ("back", h):
+                    continue
+                ev = p.events
+                cas = [e for e in ev if e.kind == "call" and (atomic_op(e) or "").startswith("compare_exchange") and
+                       sv_field_path(e.obj)[-1:] in (["pNext"], ["pNextAllocated"])]
+                won = [e for e in cas if _won(p, e) is True]
+                phi_cur = ("phi", cur_var, h, 0)
+                # predecessor variable = base of the CAS object
+                for e in won:
+                    n += 1
+                    prev = strip_sv(e.obj)
+                    pv = [v for v, val in p.env.items() if False]
+                    # which local held the predecessor at loop entry
+                    prev_vars = [v for v in p.env if ("phi", v, h, 0) == prev]
+                    ok_prev = bool(prev_vars) and p.env.get(prev_vars[0]) == prev
+                    ctx.check(ok_prev, "R23.4", F, "after unlinking a record the predecessor cursor still denotes the record before it (a linked one)",
+                              e.node, detail="the predecessor is moved onto the record that was just unlinked: the next unlink is applied to a detached "
+                              "record and a still-linked record can be freed. " + R, sig="prev-after-unlink")
+                    ok_cur = p.env.get(cur_var) == e.args[1]
+                    ctx.check(ok_cur, "R23.4", F, "after unlinking a record the cursor continues with the successor that replaced it", e.node, sig="cur-after-unlink")
+                    ctx.check(strip_sv(e.args[0]) == phi_cur, "R23.4", F, "the record unlinked is the current one", e.node, sig="unlink-current")
+        ctx.check(n >= 3, "R23.4", F, "unlink sites of compact_list analysed", None, detail="%d" % n, sig="unlink-sites")
+r23_4.rule_id = "R23.4"
+
+RULES.append(r23_4)
+FLOORS["R23.4"] = 4
